@@ -77,7 +77,7 @@ func runC19(c *Ctx) {
 	ruleStoreKeys(c, p, "C19.S")
 	c.Rule("C19.R", "GET response cache: one injective key of (user, URL) for lookup and store", 5)
 	ruleAppResponseCacheKey(c, p, "C19.R")
-	c.Rule("C19.H", "no call hangs: channel capacities, WaitGroup pairing, bounded wait loops", 9)
+	c.Rule("C19.H", "no call hangs: channel capacities, WaitGroup pairing, bounded wait loops", 7)
 	const sp = ModPath + "/app/store"
 
 	// ---- C19.I
@@ -179,11 +179,18 @@ func runC19(c *Ctx) {
 			})
 			ok504 := false
 			if ifi != nil {
+				// every path of the failure branch to a return reports 504
+				is504 := func(i ssa.Instruction) bool {
+					return IsCall(i, appPkg+".reportError") && len(PArgs(CallOf(i))) > 3 && isConstInt(PArgs(CallOf(i))[3], 504)
+				}
+				n504 := 0
 				for _, call := range Calls(f, appPkg+".reportError") {
-					if call.Block() == ifi.Block().Succs[fail] && isConstInt(PArgs(CallOf(call))[3], 504) {
-						ok504 = true
+					if is504(call) {
+						n504++
 					}
 				}
+				miss, _ := (&Walk{Target: IsReturn, Avoid: is504}).FromBlock(ifi.Block().Succs[fail])
+				ok504 = n504 > 0 && miss == nil
 			}
 			c.Check("C19.I", "proxy:no-response-is-504", p, wr.Pos(), ok504, "a missing response is reported as 504", "a wait that ends without a response is not answered 504")
 		}
@@ -296,6 +303,19 @@ func runC19(c *Ctx) {
 				for _, in := range ifi.Block().Succs[fail].Instrs {
 					if _, isSend := in.(*ssa.Send); isSend {
 						rep = true
+					}
+				}
+				// … or handed back as the function's error: no nil error is returned from that branch
+				if !rep {
+					if fn := ifi.Parent(); fn.Signature.Results().Len() > 0 {
+						last := fn.Signature.Results().Len() - 1
+						if fn.Signature.Results().At(last).Type().String() == "error" {
+							nilRet, _ := (&Walk{Target: func(i ssa.Instruction) bool {
+								r, isR := i.(*ssa.Return)
+								return isR && r.Parent() == fn && last < len(r.Results) && IsNilConst(ReturnValue(r, last))
+							}, Local: true}).FromBlock(ifi.Block().Succs[fail])
+							rep = nilRet == nil
+						}
 					}
 				}
 				ok = h == nil && rep
@@ -528,8 +548,8 @@ func c19Hangs(c *Ctx, p *Prog) {
 			}
 		})
 	}
-	if nch < 3 {
-		c.Bad("C19.H", "channels", p, 0, fmt.Sprintf("found %d channels in app/ (3 confirmed by hand)", nch))
+	if nch < 2 {
+		c.Bad("C19.H", "channels", p, 0, fmt.Sprintf("found %d error channels in app/ (the two fan-in channels of postResponse and (*blob).read were confirmed by hand)", nch))
 	}
 	// WaitGroup pairing
 	nwg := 0
